@@ -325,6 +325,10 @@ func specIsCtl(m hsms.Message) bool {
 //@                             zzCalls("hsmsss.(*ConnectionMetrics).incLinktestSuppressed") == 0 && zzCalls("hsmsss.(*transport).sinceLastActivity") == 1
 //@ loop 1 preserves [suppress] zzCalls("hsmsss.(*ConnectionMetrics).incLinktestSuppressed") == 1 ==> sr != nil && zzCalls("hsmsss.(*ConnectionMetrics).incLinktestSend") == 0
 //@ loop 1 preserves [nodrop]   zzCalls("hsms.(TransportRuntime).TCPDown") == 0
+//@ loop 1 preserves [anchor]   zzCalls("hsms.(TransportRuntime).WriteMessage") == 1 ==> zzCalls("hsmsss.(*transport).monoNanos") == 1 &&
+//@                             zzSeq("hsmsss.(*transport).monoNanos") < zzSeq("hsms.(TransportRuntime).WriteMessage")
+//@ loop 1 preserves [stepanchor] zzCalls("hsmsss.linktestFailureStep") == 1 ==>
+//@                             zzArg[int64]("hsmsss.linktestFailureStep", 2) == zzRet[int64]("hsmsss.(*transport).monoNanos")
 //@ ensures [down] zzCalls("hsms.(TransportRuntime).TCPDown") <= 1
 
 // ---- C19: one prober per Selected session. Entering Selected (startLinktest) always spawns a fresh prober when
@@ -369,6 +373,7 @@ func zzRecv[T any](name string) T { panic("spec only") }
 //@ loop 1 preserves [armfirst] zzCalls("net.(Conn).Read") == 1 && zzSeq("net.(Conn).SetReadDeadline") < zzSeq("net.(Conn).Read")
 //@ loop 1 preserves [inflight] *started == (old(*started) || zzRet[int]("net.(Conn).Read") > 0)
 //@ loop 1 preserves [progress] read >= old(read) && (read > old(read)) == (zzRet[int]("net.(Conn).Read") > 0)
+//@ loop 1 exits [full]        (result == nil) == (read == len(buf))
 //@ ensures [sticky]  old(*started) ==> *started
 //@ ensures [started] result == nil && len(buf) > 0 ==> *started
 //@ ensures [empty]   len(buf) == 0 ==> result == nil && zzCalls("net.(Conn).Read") == 0 && *started == old(*started)
